@@ -648,6 +648,55 @@ func C16(c *core.Ctx) {
 		n := selfWait(c, "R16.7", []string{"fw/face", "fw/fw", "fw/mgmt", "fw/table", "fw/dispatch"}, "the goroutine waits for a receive only it could perform: the face is never removed from the face table, its routes and FIB next hops stay, and whoever closes it again blocks too")
 		c.Floor("R16.7", "channel fields with a single receiving function in fw/", n, 1)
 	}
+	// ---- R16.9 removing a face from the RIB publishes no intermediate RIB: the forwarding
+	// threads look the FIB up without the RIB mutex, so a walk that removes the face's routes
+	// node by node and refreshes each node's FIB entry on the way publishes next-hop sets
+	// computed from a RIB in which longer prefixes have lost the face's (capture) routes while
+	// shorter ones still hold its inheritable routes — the dying face appears as a new next
+	// hop of names it never served. The function that removes the routes over the tree (it
+	// stores RibEntry.routes and recurses into the children) does not refresh the FIB itself.
+	{
+		nWalk := 0
+		for _, fn := range p.FuncsIn(core.ModPath + "/fw/table") {
+			if strings.HasSuffix(p.File(fn.Pos()), "_test.go") || fn.Signature.Recv() == nil {
+				continue
+			}
+			if n, ok := core.Deref(fn.Signature.Recv().Type()).(*types.Named); !ok || n.Obj().Name() != "RibEntry" {
+				continue
+			}
+			storesRoutes, recurses, hasFace := false, false, false
+			for _, pr := range fn.Params[1:] {
+				if bt, ok := pr.Type().Underlying().(*types.Basic); ok && bt.Kind() == types.Uint64 {
+					hasFace = true
+				}
+			}
+			var refresh ssa.Instruction
+			core.Instrs(fn, func(in ssa.Instruction) {
+				if _, _, ok := storeToField(in, "RibEntry", "routes"); ok {
+					storesRoutes = true
+				}
+				if ci, ok := in.(ssa.CallInstruction); ok {
+					if ci.Common().StaticCallee() == fn {
+						recurses = true
+					}
+					if _, ok := core.IsCall(in, core.CalleeID{Pkg: "fw/table", Recv: "RibEntry", Name: "updateNexthopsEnc"}); ok {
+						refresh = in
+					}
+				}
+			})
+			if !(storesRoutes && recurses && hasFace) {
+				continue
+			}
+			nWalk++
+			c.Funcs[core.FuncName(fn)] = true
+			at := p.Pos(fn.Pos())
+			if refresh != nil {
+				at = c.Pos(refresh)
+			}
+			c.Decide(refresh == nil, "R16.9", "face-removal-publishes-no-intermediate-rib:"+core.FuncName(fn), at, "the walk that removes a face's routes over the RIB does not write the FIB; the refresh follows when all routes are gone", core.FuncName(fn)+" removes the routes of a face node by node and refreshes the FIB entry of each node on the way: a lookup between two of those FIB writes (the forwarding threads do not take the RIB mutex) returns next hops flattened from a RIB that never existed — once a capture route of the face is gone, its inheritable routes on shorter prefixes, not yet removed, make the dying face a new next hop of the names below")
+		}
+		c.Floor("R16.9", "walks that remove a face's routes over the RIB", nWalk, 1)
+	}
 	// ---- R16.8 a channel kept in a struct field is closed only if nobody else sends on it:
 	// a send on a closed channel panics, and Close() of a face runs on another goroutine than
 	// the senders (the component, the face's send goroutine, other faces' teardown through
